@@ -356,13 +356,13 @@ ENGINES["life"] = "E2: lifecycle sequence enumeration (locking, backup/copy, des
 
 PROPS["C11"] = dict(
     level="fault_enumeration",
-    technique="fault-site enumeration over bytes: every byte offset of every table, log, MANIFEST and CURRENT file of generated databases x a fixed list of alterations, one damage per case, then the real ldb_open(paranoid) + lookups and scans with verify_checksums",
+    technique="fault-site enumeration over bytes: every byte offset of every table, log, MANIFEST and CURRENT file of generated databases x a fixed list of alterations, one damage per case, then the real ldb_open(paranoid) + lookups and scans with verify_checksums, repeated after a manual compaction of the damaged database",
     rule="3 generated databases per configuration (tables in several levels holding the newest versions of 2 keys, live log with several batches incl. a multi-update batch, MANIFEST with several edits) x every byte x {8 bit flips, :=00, :=FF, truncate at the offset, zero the 512-byte sector} (quick: bit0, bit4, bit7, :=00, truncate); table damage: get returns the stored value or an error, never another value / not-found for a live key; a scan that ends with status OK yielded exactly the live entries in order; log/MANIFEST/CURRENT damage: open fails or the contents are the fold of the surviving batches (markers); distinct = distinct (open status, read statuses, contents) outcomes",
     distinct_key="outcomes",
     assumptions=["single damage per case (multi-site damage is out of the bound)", "databases are a few KiB (B1 sizes) so that every byte can be enumerated"] + E3_ASSUME[2:3],
     stages=[dict(name="corrupt", driver="corrupt", flavour="asan", args=["--mode", "c11"],
-                 quick=["--cfgs", "B1;B1,snappy=1,bloom=1", "--dbs", "4", "--quick-alts", "1"],
-                 thorough=["--cfgs", "B1;B1,snappy=1,bloom=1;B1,mmap=0,cache=1;B1,cmp=1;B1,bloom=1,mmap=0", "--dbs", "4"])],
+                 quick=["--cfgs", "B1;B1,snappy=1,bloom=1", "--dbs", "5", "--quick-alts", "1"],
+                 thorough=["--cfgs", "B1;B1,snappy=1,bloom=1;B1,mmap=0,cache=1;B1,cmp=1;B1,bloom=1,mmap=0", "--dbs", "5"])],
 )
 PROPS["C18"]["stages"].append(dict(name="wholedb", driver="corrupt", flavour="asan", args=["--mode", "c18"],
                                    quick=["--cfgs", "B1", "--dbs", "4", "--quick-alts", "1"],
